@@ -267,6 +267,14 @@ pub fn gen_plan(property: &str, seed: u64, index: u64, tier: Tier) -> Plan {
             cfg.min_len = 160;
             cfg.max_len = 220;
         }
+        if property == "C05" && index % 9 == 4 {
+            // long quiet stretches: the key must not depend on how long the game has been going on
+            cfg.weights = [90, 4, 0, 0, 0, 0, 3, 0, 0];
+            cfg.min_len = 110;
+            cfg.max_len = 200;
+            cfg.max_plies = 260;
+            policy = if rng.chance(1, 2) { Policy::Frozen } else { Policy::Shuffle };
+        }
         if property == "C04" && index % 7 == 5 {
             // deep stacks: a long game without the expensive bracket calls, then a complete unwind
             cfg.weights = [90, 3, 0, 0, 0, 0, 0, 0, 0];
@@ -586,7 +594,13 @@ pub fn exec(plan: &Plan) -> Outcome {
             let copy = board.clone();
             evals += 1;
             stats.bump("fault/continued-on-a-copy-of-the-board");
-            if let Some(field) = snapshot_diff(&snapshot(&board), &snapshot(&copy)) {
+            // how much undo history a copy physically carries is not an observable; that it can be
+            // unwound like the original is judged by the undos that follow
+            let mut a = snapshot(&board);
+            let mut b = snapshot(&copy);
+            a.depths = [0; 4];
+            b.depths = [0; 4];
+            if let Some(field) = snapshot_diff(&a, &b) {
                 let owner = match field {
                     "halfmove-clock" | "fullmove-counter" => "C16",
                     "max-seen-position-count" | "repetition-map" => "C17",
